@@ -1,13 +1,24 @@
 (* C18 driver. Answer line: <model>\t<spec>\t<classes> *)
 
-(* Which RemoveOneFile the deciding model follows: false = the code as written (deletes by the wrong key),
-   true = the repaired code (work/fixes/C18-remove-key.diff; theorem C18_index_refines_fixed, unguarded).
-   Flip this ONE constant when the fix is committed to /repo. *)
+(* Which variant of the code the deciding model follows: one constant per repair, false = the code before it (kept in
+   Coq with its refutation), true = the repaired code. All of them are true since the fixes are in /repo.
+   fixed_remove   : work/fixes/C18-remove-key.diff (ec76861), theorem C18_index_refines_fixed
+   fixed_order    : fixes/C09-deterministic-order.diff (2030ecc): score ties broken by the path, one answer
+   fixed_stem     : fixes/C18-dotted-path.diff (1473636): names and paths are cut at the Lua suffix, not at the first '.'
+                    (this one is the Coq constant FileIndex.stem_deployed, shared with the C09 driver)
+   fixed_lit      : fixes/C18-dofile-no-suffix.diff (526bcd1): dofile / loadfile / suffix-style imports are literal
+   fixed_dotslash : fixes/C18-dot-slash-definition.diff (49c8cf0): definition / hover drop a leading "./"
+   fixed_reanalyse: fixes/C18-create-not-reanalysed.diff (f48e6f9): every create / delete event re-resolves every reference *)
 let fixed_remove = true
-(* GetBestMatchReferFile as modelled: true = repaired by fixes/C09-deterministic-order.diff (score ties broken by the
-   path: one answer), false = before (any best-scored candidate: set-valued answers, AMBIG after a tie decided the
-   control flow) *)
 let fixed_order = true
+let fixed_stem = stem_deployed
+let fixed_lit = true
+let fixed_dotslash = true
+let fixed_reanalyse = true
+let mk_cfg exact ign root =
+  { exact_mode = exact; ignore_refer = ign; ignore_modules = system_modules; main_dir = root;
+    order_fixed = fixed_order; stem_fixed = fixed_stem; lit_fixed = fixed_lit; dotslash_fixed = fixed_dotslash;
+    reanalyse_fixed = fixed_reanalyse }
 let split_list s = if s = "-" || s = "" then [] else String.split_on_char ',' s
 let uniq l = List.sort_uniq compare l
 let set_s l = "{" ^ String.concat "|" (uniq l) ^ "}"
@@ -34,14 +45,14 @@ let index_leg = (fun line ->
       match rest with
       | [] -> (List.rev macc, List.rev sacc, stale)
       | o :: tl ->
-        let st' = if fixed_remove then idx_step_fixed st o else idx_step st o in
+        let st' = if fixed_remove then idx_step_fixed_g fixed_stem st o else idx_step_g fixed_stem st o in
         let s' = files_step sfiles o in
         let done' = done_ops @ [o] in
         let m = String.concat "|" (List.map (fun n ->
           "N[" ^ dump_amap (get_name_map st' n) ^ "]P[" ^ dump_amap (get_pre_map st' n) ^ "]") probes) in
         let sp = String.concat "|" (List.map (fun n ->
-          let en = List.filter_map (fun f -> match spec_name s' n f with Some pre -> Some (f, pre) | None -> None) universe in
-          let ep = List.filter_map (fun f -> match spec_pre s' n f with Some pre -> Some (f, pre) | None -> None) universe in
+          let en = List.filter_map (fun f -> match spec_name fixed_stem s' n f with Some pre -> Some (f, pre) | None -> None) universe in
+          let ep = List.filter_map (fun f -> match spec_pre fixed_stem s' n f with Some pre -> Some (f, pre) | None -> None) universe in
           "N[" ^ dump_entries en ^ "]P[" ^ dump_entries ep ^ "]") probes) in
         go st' s' done' tl (m :: macc) (sp :: sacc) (stale || stale_remove done')
     in
@@ -99,10 +110,8 @@ let () = register "c18.resolve" (fun line ->
   match split_ws line with
   | [rooth; exact; kind; curh; referh; files; ign] ->
     let t = parse_tree rooth files in
-    let cfg = { exact_mode = (exact = "1"); ignore_refer = List.map bytes_of_hex (split_list ign);
-                ignore_modules = system_modules; main_dir = t.root;
-                order_fixed = fixed_order } in
-    let st = idx_run (List.map (fun p -> Ins p) t.indexed) in
+    let cfg = mk_cfg (exact = "1") (List.map bytes_of_hex (split_list ign)) t.root in
+    let st = idx_run_g fixed_stem (List.map (fun p -> Ins p) t.indexed) in
     let cur = t.root @ (slash_n :: bytes_of_hex curh) in
     let refer = bytes_of_hex referh in
     let k = kind_of kind in
@@ -110,9 +119,13 @@ let () = register "c18.resolve" (fun line ->
     let m = check_refer disk cfg st cur k refer in
     let s = spec_refer disk cfg t.indexed k refer in
     let ml = out_s t.root m "" in
-    let sl = if conforms m s then ml else out_s t.root s "doc" in
-    let cls = (if (not cfg.exact_mode) && k <> KSuffix && odd_name t.indexed then ["odd_name"] else [])
-            @ (if (not cfg.exact_mode) && literal_no_dot k refer then ["literal_no_dot"] else []) in
+    (* the documented mapping speaks of name.lua / name/init.lua only: a workspace with another (associated) file type
+       is outside its domain for require-style references (guard all_lua of C18_resolve_conforms): no demand there *)
+    let outside = fixed_stem && (not cfg.exact_mode) && k <> KSuffix && non_lua t.indexed in
+    let sl = if conforms m s || outside then ml else out_s t.root s "doc" in
+    let cls = (if (not fixed_stem) && (not cfg.exact_mode) && k <> KSuffix && odd_name t.indexed then ["odd_name"] else [])
+            @ (if outside then ["non_lua_file"] else [])
+            @ (if (not fixed_lit) && (not cfg.exact_mode) && literal_no_dot k refer then ["literal_no_dot"] else []) in
     ml ^ "\t" ^ sl ^ "\t" ^ (if cls = [] then "-" else String.concat "," cls)
   | _ -> "BAD-CASE")
 
@@ -121,7 +134,7 @@ let () = register "c18.openlist" (fun line ->
   match split_ws line with
   | [call; sh] ->
     let s = bytes_of_hex sh in
-    let l = open_list (call = "r") (call = "d") s in
+    let l = open_list (mk_cfg false [] []) (call = "r") (call = "d") s in
     "[" ^ String.concat "," (List.map hex_of_bytes l) ^ "]\t-\t-"
   | _ -> "BAD-CASE")
 
@@ -132,26 +145,28 @@ let () = register "c18.project" (fun line ->
   | [rooth; files; curh; refs; evs] ->
     let t = parse_tree rooth files in
     let cur = t.root @ (slash_n :: bytes_of_hex curh) in
-    let cfg = { exact_mode = false; ignore_refer = []; ignore_modules = system_modules; main_dir = t.root;
-                order_fixed = fixed_order } in
+    let cfg = mk_cfg false [] t.root in
     let refl = List.map (fun r -> ((if r.[0] = 'd' then KSuffix else KRequire), bytes_of_hex (String.sub r 1 (String.length r - 1)))) (split_list refs) in
     let disk0 = List.map bytes_of_string t.diskl @ [cur] in
     let lua0 = t.indexed @ [cur] in
     let events = List.map (fun e ->
       let p = t.root @ (slash_n :: bytes_of_hex (String.sub e 1 (String.length e - 1))) in
       if e.[0] = 'c' then Ins p else Rem p) (split_list evs) in
-    (* guard of C18_features_agree for reference (k, str) over the Lua files `lua` and the disk `disk` *)
+    (* premises of C18_features_agree / C18_features_agree_ties for reference (k, str) over the Lua files `lua` and the disk `disk` *)
     let fa_guard lua disk (k, str) =
       k = KRequire && str <> [] && remove_pre_str str <> [] && not (mem_bytes (remove_pre_str str) system_modules)
-      && not (odd_name lua)
+      && (if fixed_stem then all_lua lua else not (odd_name lua))
       && not (List.mem (complete_path t.root (doc_so (remove_pre_str str))) disk)
-      && List.length (uniq (List.filter (path_suffix (doc_lua (remove_pre_str str))) lua)) <= 1
-      && List.length (uniq (List.filter (path_suffix (doc_init (remove_pre_str str))) lua)) <= 1 in
+      (* C18_features_agree (at most one match per documented candidate) or C18_features_agree_ties (any number of
+         equally named modules, the repaired deterministic choice, the name not inside the text "lua") *)
+      && ((List.length (uniq (List.filter (path_suffix (doc_lua (remove_pre_str str))) lua)) <= 1
+           && List.length (uniq (List.filter (path_suffix (doc_init (remove_pre_str str))) lua)) <= 1)
+          || (fixed_order && fixed_dotslash && fixed_stem && not (lua_overlap (mod_path (remove_pre_str str))))) in
     let observe ?(force_agree = false) (s : pstate) =
       String.concat "," (List.map2 (fun (r : ref_state) (k, str) ->
         let loaded = uniq (List.map (rel_s t.root) (if r.rs_valid then r.rs_vstr else [])) in
         let loaded = if loaded = [] then ["-"] else loaded in
-        let items = open_list (k = KRequire) (k = KSuffix) str in
+        let items = open_list cfg (k = KRequire) (k = KSuffix) str in
         let oo = open_outcomes cfg s.ps_idx (fun f -> mem_bytes f s.ps_loaded) cur items in
         let defs = uniq (List.map (function Some (_, f) -> rel_s t.root f | None -> "-") oo) in
         let hovs = uniq (List.map (function Some (it, _) -> hex_of_bytes it | None -> "-") oo) in
@@ -172,7 +187,7 @@ let () = register "c18.project" (fun line ->
           | Ins p -> ((if List.mem p disk then disk else disk @ [p]), (if List.mem p lua then lua else lua @ [p]), stale)
           | Rem p -> (List.filter (fun g -> g <> p) disk, List.filter (fun g -> g <> p) lua, stale || List.mem p lua)) in
         (* a Created event after which cur was not re-analysed although a fresh start answers differently *)
-        let skipped' = skipped || (match e with
+        let skipped' = skipped || (not fixed_reanalyse) && (match e with
           | Ins p -> not (List.exists (fun (r : ref_state) -> r.rs_err) s.ps_refs)
                      && any_touch p s.ps_refs = Some false
                      && observe s' <> observe (pinit cfg cur disk' lua' refl)
@@ -181,10 +196,11 @@ let () = register "c18.project" (fun line ->
     let s0 = pinit cfg cur disk0 lua0 refl in
     let (m, sp, stale, skipped) = go s0 disk0 lua0 events [] [] false false in
     let ambig = List.mem "AMBIG" m in
-    let dotslash = List.exists (fun (k, str) -> k = KRequire && remove_pre_str str <> str) refl in
+    let dotslash = (not fixed_dotslash) && List.exists (fun (k, str) -> k = KRequire && remove_pre_str str <> str) refl in
     let cls = (if stale then ["stale_remove"] else []) @ (if skipped then ["skipped_create"] else [])
             @ (if dotslash then ["dot_slash_prefix"] else [])
-            @ (if ambig then ["tie_ambiguous"] else []) @ (if odd_name lua0 then ["odd_name"] else []) in
+            @ (if ambig then ["tie_ambiguous"] else [])
+            @ (if (not fixed_stem) && odd_name lua0 then ["odd_name"] else []) @ (if fixed_stem && non_lua lua0 then ["non_lua_file"] else []) in
     String.concat ";" m ^ "\t" ^ String.concat ";" sp ^ "\t" ^ (if cls = [] then "-" else String.concat "," cls)
   | _ -> "BAD-CASE")
 
